@@ -5,6 +5,7 @@
                 what else happened ("none", "builderror", "hostpanic", ...)
      initorder  {id, nv, nf, deps, outcome, order}
      conv       {id, op, k, v, a, outcome, out}
+     minigo     {id, shape, prog, exp, out, outcome, msg}
    A record is good iff the observation is what the Go-semantics reference prescribes. *)
 EXTENDS IntALU, InitOrder, StrConv, Json, SequencesExt
 
@@ -37,8 +38,29 @@ InitSig(r) == [fam |-> "initorder", cause |-> InitCause(r), nv |-> r.nv, nf |-> 
 ConvOk(r) == r.outcome = "ok" /\ r.out = ConvRef(r.op, r.k, r.v, r.a)
 ConvSig(r) == [fam |-> "conv", op |-> r.op, k |-> r.k, cause |-> IF r.outcome = "ok" THEN "wrong-result" ELSE r.outcome]
 
-RecOk(r) == CASE r.fam = "intalu" -> AluOk(r) [] r.fam = "initorder" -> InitOk(r) [] r.fam = "conv" -> ConvOk(r)
-Sig(r) == CASE r.fam = "intalu" -> AluSig(r) [] r.fam = "initorder" -> InitSig(r) [] r.fam = "conv" -> ConvSig(r)
+(* ---- minigo: {id, shape, prog, exp, out, outcome, msg}: exp = [out, outcome, msg] is the observable computed by
+   the reference interpreter (MC_MiniGo) for this program, carried through the driver untouched.
+   "The same message": the run-time error text is compared up to the operand values that Go appends in
+   brackets ("runtime error: slice bounds out of range [2:1]" ~ "runtime error: slice bounds out of range"):
+   Scriggo documents that it does not reproduce those details for slice bounds (errors.go, issue 321), and
+   the wording of a message beyond its class is not a clause of the property.  Full equality of the text is
+   counted separately by the check (panic_message_detail_differs, diagnostic). *)
+RECURSIVE MgCut(_, _)
+MgCut(m, i) == IF i > Len(m) \/ m[i] = 91 THEN i - 1 ELSE MgCut(m, i + 1)
+RECURSIVE MgTrim(_, _)
+MgTrim(m, n) == IF n > 0 /\ m[n] = 32 THEN MgTrim(m, n - 1) ELSE SubSeq(m, 1, n)
+MgMsgClass(m) == MgTrim(m, MgCut(m, 1))
+MgOk(r) == /\ r.outcome = r.exp.outcome
+           /\ r.out = r.exp.out
+           /\ (r.outcome = "panic" => MgMsgClass(r.msg) = MgMsgClass(r.exp.msg))
+MgCause(r) == IF r.outcome \notin {"ok", "panic"} THEN r.outcome
+              ELSE IF r.out # r.exp.out THEN "wrong-output"
+              ELSE IF r.outcome # r.exp.outcome THEN (IF r.exp.outcome = "panic" THEN "missing-panic" ELSE "unexpected-panic")
+              ELSE "wrong-panic-message"
+MgSig(r) == [fam |-> "minigo", shape |-> r.shape, cause |-> MgCause(r)]
+
+RecOk(r) == CASE r.fam = "intalu" -> AluOk(r) [] r.fam = "initorder" -> InitOk(r) [] r.fam = "conv" -> ConvOk(r) [] r.fam = "minigo" -> MgOk(r)
+Sig(r) == CASE r.fam = "intalu" -> AluSig(r) [] r.fam = "initorder" -> InitSig(r) [] r.fam = "conv" -> ConvSig(r) [] r.fam = "minigo" -> MgSig(r)
 Cause(r) == <<r.fam, Sig(r).cause>>
 
 (* ---- record-walk skeleton (as in spec/lib2/Trace_HTMLEscape.tla).  One difference: the list of bad
